@@ -253,10 +253,15 @@ def _deferred(ctx, rep):
                 for c in p.calls():
                     if q.call_name(c) == "add_done_callback" and isinstance(q.recv(c), tuple) and q.recv(c)[:2] == pre and c.d["args"]:
                         cbv = c.d["args"][0]
+                        boundv = ()
                         if isinstance(cbv, tuple) and cbv[0] == "partial":
+                            boundv = tuple(cbv[2]) + tuple(v for k, v in cbv[3])
                             cbv = cbv[1]
-                        # the executor's own completion callback (the future's mirroring callback is the link itself)
+                        # the executor's own completion callback (the future's mirroring callback is the link itself):
+                        # a method of the executor, or a function / closure bound to the executor's state
                         if isinstance(cbv, tuple) and cbv[0] == "attr" and it.type_of(cbv[1], p) == "C:" + ci.key:
+                            regs.append(c)
+                        elif isinstance(cbv, tuple) and cbv[0] in ("func", "closure") and any(isinstance(v, tuple) and v[0] == "attr" and it.type_of(v[1], p) == "C:" + ci.key for v in boundv):
                             regs.append(c)
                 rep.ob("R-LINK", "%s loop: the delegate future is linked to this job's own future, one completion callback" % cname, linked and len(regs) == 1, "linked to the job's future: %s; callbacks registered on the delegate future: %d" % (linked, len(regs)), where_of(e.fn, e.node), trace_of(p, e.seq))
         rep.ob("R-ONCE", "%s loop: has hand-over paths" % cname, nh > 0, "", where_of(lay.loop))
